@@ -1,2 +1,48 @@
-From CubedV Require Import Model.Util Model.Events.
-Lemma placeholder_c07 : barrier_ok [(1,2)] [ECS; EOS 1; EOE 1; EOS 2; EOE 2; ECE] = true. Proof. reflexivity. Qed.
+(* C07: no task reads data its producers have not finished writing. *)
+From CubedV Require Import Model.Util Model.Events Proofs.EventsProofs.
+From Coq Require Import Permutation.
+
+Theorem C07_op_deps_spec : forall is_op edges p b, In (p, b) (op_deps is_op edges) <->
+  (is_op p = true /\ is_op b = true /\ exists a, In (p, a) edges /\ In (a, b) edges).
+Proof. exact (op_deps_spec). Qed.
+Print Assumptions C07_op_deps_spec.
+
+Theorem C07_is_topo_order_sound : forall nodes edges order, is_topo_order nodes edges order = true ->
+  NoDup order /\ (forall n, In n nodes <-> In n order) /\
+  forall u v, In (u, v) edges -> exists i j, index_of u order = Some i /\ index_of v order = Some j /\ i < j.
+Proof. exact (is_topo_order_sound). Qed.
+Print Assumptions C07_is_topo_order_sound.
+
+Theorem C07_is_generations_sound : forall nodes edges gens, is_generations nodes edges gens = true ->
+  (forall n, In n nodes <-> exists g, In g gens /\ In n g) /\
+  forall u v, In (u, v) edges -> exists i j, gen_index u gens = Some i /\ gen_index v gens = Some j /\ i < j.
+Proof. exact (is_generations_sound). Qed.
+Print Assumptions C07_is_generations_sound.
+
+Theorem C07_seq_barrier : forall nodes edges order is_op skip (ntasks : nat -> nat),
+  is_topo_order nodes edges order = true ->
+  barrier_ok (op_deps is_op edges)
+    (seq_trace (map (fun n => (n, ntasks n)) (visit_nodes skip order))) = true.
+Proof. exact (seq_barrier). Qed.
+Print Assumptions C07_seq_barrier.
+
+Theorem C07_par_barrier : forall nodes edges gens is_op skip (ntasks : nat -> nat) (inter : list (list ev)),
+  is_generations nodes edges gens = true ->
+  length inter = length (visit_generations skip gens) ->
+  (forall l e, In l inter -> In e l -> exists n, e = ETE n) ->
+  barrier_ok (op_deps is_op edges)
+    (par_trace (combine (map (map (fun n => (n, ntasks n))) (visit_generations skip gens)) inter)) = true.
+Proof. exact (par_barrier). Qed.
+Print Assumptions C07_par_barrier.
+
+Theorem C07_barrier_ok_sound : forall deps trace p b i j,
+  barrier_ok deps trace = true -> In (p, b) deps ->
+  forall nt, events_ok nt trace = true -> In p (map fst nt) -> In b (map fst nt) ->
+  nth_error trace i = Some (ETE p) -> nth_error trace j = Some (ETE b) -> i < j.
+Proof. exact (barrier_ok_sound). Qed.
+Print Assumptions C07_barrier_ok_sound.
+
+Example C07_barrier_accepts : barrier_ok [(1,2)] [ECS; EOS 1; ETE 1; EOE 1; EOS 2; ETE 2; EOE 2; ECE] = true.
+Proof. reflexivity. Qed.
+Example C07_barrier_rejects : barrier_ok [(1,2)] [ECS; EOS 1; EOS 2; ETE 2; EOE 1; EOE 2; ECE] = false.
+Proof. reflexivity. Qed.
